@@ -120,3 +120,10 @@ chk("C06", "exploration",
     "content and skipped hostile names must be reported.",
     "Before/after observation of the file system (attempts that fail leave no trace; the planned strace monitor is not built). Runs as root on tmpfs.",
     "before/after jail snapshot around the real unpacker on hostile images", "3/C06")
+chk("C19", "exploration",
+    "For each of the copyable kinds (gzip/xz/lzma/lz4/zstd compressors in both directions, fragment table, id table, metadata, directory, data and xattr readers, read-only file, xattr writer) an ASan+LSan "
+    "harness builds three identically constructed objects with the same seeded pre-history, takes C = sqfs_copy(O1) (every third history also a copy of the copy), then drives C and O1 with different interleaved "
+    "seeded operation sequences: C must answer every operation like the untouched twin O2 and O1 like the twin O3 (answers compared as hashes of status and payload; the xattr writer additionally by the bytes it "
+    "flushes). Then O1 or C is released first (one process per order so a crash is attributable), the survivor is used again, and LeakSanitizer must be clean.",
+    "Operation histories are sampled; equivalence is judged on the answers of the public API, not on internal state.",
+    "twin-object differential histories under ASan/LSan", "3/C19")
